@@ -1,9 +1,11 @@
-use std::io::{BufRead, ErrorKind, Read, Result as IoResult};
+use std::io::{BufRead, Chain, Cursor, Read, Result as IoResult};
 
 use super::encoding::Encoding;
 
 pub struct Decoder<R> {
-    inner: R,
+    // Bytes that were read while looking for a BOM but are not part of it
+    // are chained back in front of the reader.
+    inner: Chain<Cursor<Vec<u8>>, R>,
     read_buf: Vec<u8>,
     // Only used for UTF-16/invalid UTF-8 encoded data
     decode_buf: String,
@@ -12,35 +14,27 @@ pub struct Decoder<R> {
 
 impl<R: BufRead> Decoder<R> {
     pub fn new(mut inner: R) -> IoResult<Self> {
+        let (encoding, prefix) = Self::read_bom(&mut inner)?;
+
         Ok(Self {
-            encoding: Self::read_bom(&mut inner)?,
+            encoding,
             read_buf: Vec::new(),
             decode_buf: String::new(),
-            inner,
+            inner: Cursor::new(prefix).chain(inner),
         })
     }
 
-    fn read_bom(reader: &mut R) -> IoResult<Encoding> {
-        let buf = loop {
-            let available = match reader.fill_buf() {
-                Ok(n) => n,
-                Err(ref err) if err.kind() == ErrorKind::Interrupted => continue,
-                Err(err) => return Err(err),
-            };
+    fn read_bom(reader: &mut R) -> IoResult<(Encoding, Vec<u8>)> {
+        // A BOM is at most three bytes long. `read_to_end` keeps reading
+        // (and retries on interruption) until those are available or the
+        // input ends, regardless of how the reader chunks its data.
+        let mut prefix = Vec::with_capacity(3);
+        reader.by_ref().take(3).read_to_end(&mut prefix)?;
 
-            let len = available.len();
+        let (encoding, consumed) = Encoding::from_bom(&prefix);
+        prefix.drain(..consumed);
 
-            if len >= 3 || len == 0 {
-                break available;
-            }
-
-            reader.consume(len);
-        };
-
-        let (encoding, consumed) = Encoding::from_bom(buf);
-        reader.consume(consumed);
-
-        Ok(encoding)
+        Ok((encoding, prefix))
     }
 
     pub fn read_line(&mut self) -> IoResult<Option<&str>> {
